@@ -40,22 +40,35 @@ def _analyse_sibling(chk, r1, r2, r3, f: FuncInfo, br) -> Dict[str, object]:
                    f"{f.qualname}: `{unparse(s)[:80]}` divides a daily *mean* temperature by the day's coverage (kind {sorted(kinds)}): a day with 25 % of its readings missing comes out 33 % too warm",
                    sample={"function": f.qualname, "kind": sorted(kinds)})
     r1.inst(f"{f.key}|rescale-sites={len(sites)}")
-    # ---- R09.3 (a) non-hourly route: keep coverage > 0.5, warn on <= 0.5
-    masks = set()
-    for n in ast.walk(f.node):
-        if isinstance(n, ast.Subscript) and unparse(n.value) in (TF, TF + ".loc"):
-            sl = n.slice.elts[0] if isinstance(n.slice, ast.Tuple) else n.slice
-            m = mask_terms(sl, res, stmt_of(n))
-            if m is not None and any("coverage" in t[0] for t in m[1]):
-                masks.add(tuple(sorted((t[0].replace(TF + ".", "F."), t[1], t[2]) for t in m[1])))
-    r3.require(masks == {(("F.coverage", "<=", 0.5),), (("F.coverage", ">", 0.5),)}, f"{f.key}|coverage-masks", f.where(),
-               f"{f.qualname}: a day with half or fewer of its readings must be missing: masks must be coverage > 0.5 (keep) and coverage <= 0.5 (warn); found {sorted(masks)}", sample={"masks": sorted(map(str, masks))})
-    keep_ok = any(pc.has(p_, bind=False) for p_ in (
-        "_TF_ = _TF_[_TF_.coverage > 0.5].reindex(_TF_.index)[['value']].rename(columns={'value': 'temperature_mean'})",
-        "_TF_ = _TF_.loc[_TF_.coverage > 0.5].reindex(_TF_.index)[['value']].rename(columns={'value': 'temperature_mean'})",
-        "_TF_ = _TF_[_TF_['coverage'] > 0.5].reindex(_TF_.index)[['value']].rename(columns={'value': 'temperature_mean'})"))
-    r3.require(keep_ok, f"{f.key}|blank-low-coverage-days", f.where(),
-               f"{f.qualname}: low-coverage days must be blanked by selecting coverage > 0.5 and reindexing onto the full daily index (value -> temperature_mean)")
+    # ---- R09.3 (a) non-hourly route, by one-row interpretation (rules/tempcoverage_absint.py): as_freq hands back a day of mean T and
+    # coverage c; the day keeps T (unscaled) iff c > 0.5, is NaN otherwise, and the missing-data warning is filed iff c <= 0.5
+    from rules.tempcoverage_absint import T_MEAN, W_MISSING, outcomes as _cov_outcomes
+    keep_bad, warn_bad, scale_bad, masks_seen = [], [], [], []
+    for o in _cov_outcomes(chk, f):
+        c_ = o["coverage"]
+        if "raises" in o or "returns" in o:
+            keep_bad.append(f"coverage {c_:g}: {o.get('raises') or o.get('returns')}")
+            continue
+        want_keep = c_ > 0.5
+        if want_keep and o["value"] is None:
+            keep_bad.append(f"a day with {c_:.0%} of its readings is blanked")
+        if not want_keep and (o["value"] is not None or not o["present"]):
+            keep_bad.append(f"a day with {c_:.0%} of its readings " + ("keeps a temperature" if o["value"] is not None else "is dropped instead of being blanked"))
+        if want_keep and o["value"] is not None and abs(o["value"] - T_MEAN) > 1e-9:
+            scale_bad.append(f"a day with {c_:.0%} of its readings comes out as {o['value']:.4g} instead of the mean {T_MEAN} as_freq computed")
+        if ((W_MISSING in o["warned"]) != (not want_keep)):
+            warn_bad.append(f"coverage {c_:g}: warnings {o['warned']}")
+        masks_seen.append((c_, o["value"] is not None, W_MISSING in o["warned"]))
+        af = o.get("as_freq")
+        if af is not None and not (af[0] == "D" and dict(af[2]).get("series_type") == "instantaneous" and dict(af[2]).get("include_coverage") is True and not af[1]):
+            scale_bad.append(f"as_freq is called with {af}: sub-daily temperature must be aggregated to 'D' as instantaneous data (a mean) with coverage")
+    shape["masks"] = sorted(map(str, masks_seen))
+    r3.require(not keep_bad and not warn_bad, f"{f.key}|coverage-masks", f.where(),
+               f"{f.qualname}: a day with half or fewer of its readings must be missing and reported (keep iff coverage > 0.5, warn iff coverage <= 0.5); interpreted: {(keep_bad + warn_bad)[:3]}",
+               sample={"masks": sorted(map(str, masks_seen))})
+    r3.require(not keep_bad, f"{f.key}|blank-low-coverage-days", f.where(),
+               f"{f.qualname}: low-coverage days must stay rows holding NaN (value -> temperature_mean); interpreted: {keep_bad[:3]}")
+    r1.require(not scale_bad, f"{f.key}|mean-not-rescaled", f.where(), f"{f.qualname}: {scale_bad[:2]}")
     # ---- R09.3 (b) hourly route
     hourly = [c for c in calls_in(f.node) if unparse(c.func) == "compute_temperature_features"]
     ok = len(hourly) == 1 and (pc.has(f"_HR_ = compute_temperature_features({MI}, _TS_, data_quality=True)", bind=False)
@@ -112,7 +125,7 @@ def _analyse_sibling(chk, r1, r2, r3, f: FuncInfo, br) -> Dict[str, object]:
             r2.require(not (daily and src_raw and not resampled), f"{f.key}|count-column:{col}", f.where(s),
                        f"{f.qualname}: `{unparse(s)[:90]}` stores the *raw* (sub-daily) series' flags into the daily frame: alignment keeps only the midnight stamps, so the per-day "
                        f"counts of present/absent readings are 0/1 instead of counts and the 90 % temperature-coverage test is fed wrong numbers", sample={"function": f.qualname, "column": col})
-    shape["masks"] = sorted(map(str, masks))
+    shape["masks"] = sorted(map(str, masks_seen))
     return shape
 
 
